@@ -184,7 +184,7 @@ func init() {
 		knobs: func() Knobs {
 			k := DefaultKnobs()
 			k.Types = []string{"T0", "T2", "L0"}
-			k.Ifaces = []string{"I1", "I2"}
+			k.Ifaces = []string{"I1", "I2", "I01"}
 			k.Names = []string{"a", "b"}
 			k.Groups = []string{"a", "b"}
 			k.PFresh, k.PAs, k.PNamed, k.PGroupRes, k.PGroupParam = 55, 45, 45, 25, 25
